@@ -38,8 +38,9 @@ ASSUMPTIONS = ['MiniDB reproduces ZODB optimistic concurrency control: serial ch
 
 def bounds(tier):
     return ('quick: cover families; bases = all shapes N=4 @2/2, N=5 @3/2, N=6 @4/2 (C) / N=5 @4/2 (Py); '
-            'all pairs of 1-op transactions x 2 orders; other families N=4 @4/2; thorough: all families, '
-            'N=5 @2/2, N=6 @3/2, N=7 @4/2 and 4/3, plus 2-op transactions on N=4 @4/2')
+            'all pairs of 1-op transactions x 2 orders; other families N=4 @4/2; thorough: cover families '
+            'N=5 @2/2, N=6 @3/2, N=7 @4/2 and 4/3, 2-op transactions on N=4 @4/2, thinning 7 keys x 3 orders; '
+            'the other 15 families at the quick depth of the cover families')
 
 
 def required_guards(tier):
@@ -50,13 +51,14 @@ def required_guards(tier):
 
 def configs(tier):
     out = []
-    deep = F.COVER if tier == 'quick' else F.FAMILIES
+    deep = F.COVER
     for fam in F.FAMILIES:
         for impl in F.IMPLS:
             c = impl == 'c'
             for kind in F.TREE_KINDS:
-                if fam in deep:
-                    if tier == 'quick':
+                if fam in deep or tier != 'quick':
+                    if tier == 'quick' or fam not in deep:
+                        # quick tier for the cover families = thorough tier for the other 15
                         out.append((fam, kind, impl, (2, 2), 4, 1, 10))
                         out.append((fam, kind, impl, (3, 2), 5 if c else 4, 1, 20))
                         out.append((fam, kind, impl, (4, 2), 6 if c else 5, 1, 40))
